@@ -53,7 +53,7 @@ ASSUMPTIONS = [
     "format_exceptions / error_handler-returns-False are run at every crash point only for programs of weight<=WF: _render_error runs after every "
     "finally clause has run and replaces the buffer stack, so it cannot depend on where the exception came from (html_error_template costs 8 ms per render)",
     "two raise kinds: Boom(Exception) everywhere; BoomBase(BaseException, constructor needs arguments) at every probe of the F1 programs, one per render, "
-    "under none / render_context / error_handler True / error_handler False / include_error_handler True and False - nothing in a render may catch it; <%block>, <%page> flags, namespace-call "
+    "under none / render_context / error_handler returning False / include_error_handler True and False - nothing in a render may catch it; <%block>, <%page> flags, namespace-call "
     "spellings and expression filters are not in the grammar (they emit the same try/finally sites as nested/top-level defs and <%call>)",
     "the design's bound W=5/7 over the full flag set is infeasible (1.1e6 programs at modifier-weight 5): the bounds reported are what is enumerated completely",
 ]
@@ -78,7 +78,7 @@ LETTER_POOLS = [
 
 MODES_ESC = ("plain", "rc", "eh", "ehf", "fe")
 MODES_OK = ("plain", "rc")
-MODES_BASE = ("plain", "rc", "eh", "ehf")  # BaseException-only raise kind (no error page: what it shows for a class is not fixed)
+MODES_BASE = ("plain", "rc", "ehf")  # BaseException-only raise kind: none, caller of render_context, error_handler returning False
 
 
 def letters(seed):
